@@ -39,7 +39,16 @@ RULE = ('sweep: every BaseException subclass exported by builtins (69 names on 3
         'BaseException-only classes) and random builtin expressions, raised through random chains '
         '(call/ref links, optional scope per link, scoped references, function/class '
         'intermediates, raiser registered with configurable/register/external_configurable, '
-        'method registered with register/configurable, optional `raise .. from`). Non-trivial = '
+        'method registered with register/configurable, optional `raise .. from`). Multiple '
+        'inheritance: class UExc(A, B) for every ORDERED pair over 21 representative builtin '
+        'classes (all builtin classes in the thorough tier) that CPython lets be created, both '
+        'orders, incl. (ValueError, OSError), (KeyError, OSError), (ValueError, ExceptionGroup), '
+        '(OSError, ValueError): exhaustive sweep mi-ordered-pairs (no args / two args, depth 1 '
+        'and 2) and sampled by the generator. Twin first (optional in generated cases, one extra '
+        'case per builtin expression and per pair in the sweeps): before the main raise an '
+        'exception of a DISTINCT class with the same __module__ and __qualname__ (the same '
+        'generated source exec\'ed in a second namespace; for builtins a subclass with the '
+        'identical name) is raised through a configurable and caught. Non-trivial = '
         'the original has a public data attribute besides args, or its constructor has required '
         'arguments, or >=2 configurables are on the stack. Distinct = distinct case JSON.')
 ASSUMPTIONS = [
@@ -55,6 +64,9 @@ ASSUMPTIONS = [
     'gin.current_scope_str() occur in str(e2) after the prefix str(e); nothing else of the text '
     'is compared, further "In call to configurable" lines for outer configurables are accepted',
     'only the innermost configurable (the one whose body raised) is required to be named',
+    '"catchable by the same except clauses" is read in both directions for the twin class only: '
+    'the twin is unrelated to (or a strict subclass of) the raised class, so `except Twin` does '
+    'not catch the original and must not catch the object that reaches the caller',
     'the active scope is the one in force when the raising configurable was entered; probes never '
     'open a scope between entering the raising configurable and the raise',
     'generated properties do not depend on str(self)/repr(self)/type(self)/id(self): the message '
@@ -73,14 +85,16 @@ FLOORS = {
     'passthrough': 0.02,
     'family:group': 0.01,
     'kind:user': (0.5, 'origin:gen'),
-    'user:new-required': (0.15, 'kind:user'),
-    'user:init-required': (0.15, 'kind:user'),
-    'user:init-nosuper': (0.05, 'kind:user'),
-    'user:slots': (0.1, 'kind:user'),
-    'user:props': (0.2, 'kind:user'),
-    'user:mi': (0.05, 'kind:user'),
-    'user:custom-str': (0.1, 'kind:user'),
-    'user:group-subclass': (0.03, 'kind:user'),
+    'user:new-required': (0.15, 'user:generated'),
+    'user:init-required': (0.15, 'user:generated'),
+    'user:init-nosuper': (0.05, 'user:generated'),
+    'user:slots': (0.1, 'user:generated'),
+    'user:props': (0.2, 'user:generated'),
+    'user:mi': (0.05, 'user:generated'),
+    'user:custom-str': (0.1, 'user:generated'),
+    'user:group-subclass': (0.03, 'user:generated'),
+    'user:mi-layout-base-not-first': (0.03, 'user:generated'),
+    'twin:first': 0.03,
 }
 TECHNIQUE = ('bounded exhaustive sweep over the builtin exception hierarchy x raise site x depth x '
              'scope, plus Hypothesis-generated user exception classes rendered to source, with a '
@@ -178,24 +192,68 @@ SINGLE_BASES = ['Exception', 'ValueError', 'TypeError', 'KeyError', 'LookupError
                 'OSError', 'FileNotFoundError', 'ImportError', 'StopIteration', 'AttributeError',
                 'NameError', 'ArithmeticError', 'UnicodeError', 'AssertionError', 'UserWarning',
                 'BaseException', 'KeyboardInterrupt']
-_MI_CANDIDATES = [('ValueError', 'KeyError'), ('KeyError', 'AttributeError'),
-                  ('AttributeError', 'KeyError'), ('ImportError', 'ValueError'),
-                  ('ValueError', 'OSError'), ('OSError', 'ValueError'),
-                  ('RuntimeError', 'StopIteration'), ('LookupError', 'ImportError'),
-                  ('TypeError', 'NameError'), ('OSError', 'ImportError'),
-                  ('StopIteration', 'ImportError'), ('UserWarning', 'ValueError'),
-                  ('KeyError', 'IndexError'), ('NameError', 'AttributeError')]
+GROUP_LEAD = ["'gm'", "[ValueError(1), KeyError('k')]"]
+# one representative per allocator / instance layout / constructor signature among the builtins
+MI_REPRESENTATIVES = ['Exception', 'ValueError', 'TypeError', 'KeyError', 'LookupError',
+                      'IndexError', 'RuntimeError', 'OSError', 'FileNotFoundError', 'ImportError',
+                      'ModuleNotFoundError', 'StopIteration', 'StopAsyncIteration',
+                      'AttributeError', 'NameError', 'SyntaxError', 'UnicodeError',
+                      'UnicodeDecodeError', 'UserWarning', 'ExceptionGroup', 'BaseExceptionGroup']
 
 
-def _layout_ok(pair):
+def is_group_name(name):
+  return issubclass(getattr(builtins, name), BaseExceptionGroup)
+
+
+def _mi_probe(pair):
+  """(creatable and constructible without extra arguments, super().__new__ usable) for
+  `class T(A, B)`; decided by CPython itself ("where layouts allow")."""
   try:
-    type('T', tuple(getattr(builtins, b) for b in pair), {})
-    return True
-  except TypeError:
-    return False
+    bases = tuple(getattr(builtins, b) for b in pair)
+    t = type('T', bases, {})
+    lead = eval('(' + ', '.join(GROUP_LEAD) + ')') if any(map(is_group_name, pair)) else ()  # pylint: disable=eval-used
+    t(*lead)
+  except Exception:  # pylint: disable=broad-except
+    return False, False
+  try:
+    t2 = type('T', bases, {'__new__': lambda cls, *a: super(t2, cls).__new__(cls, *a)})
+    t2(*lead)
+    return True, True
+  except Exception:  # pylint: disable=broad-except
+    return True, False
 
 
-MI_BASES = [list(p) for p in _MI_CANDIDATES if _layout_ok(p)]   # "where layouts allow"
+def mi_pairs(names):
+  """All ORDERED pairs of distinct classes among `names` for which the class can be created."""
+  seen, uniq = set(), []
+  for n in names:
+    if id(getattr(builtins, n)) not in seen:       # aliases (IOError is OSError) once
+      seen.add(id(getattr(builtins, n)))
+      uniq.append(n)
+  out = []
+  for a in uniq:
+    for b in uniq:
+      if a != b:
+        okay, new_ok = _mi_probe((a, b))
+        if okay:
+          out.append(([a, b], new_ok))
+  return out
+
+
+_MI = mi_pairs(MI_REPRESENTATIVES)
+MI_BASES = [p for p, _ in _MI]
+MI_NEW_OK = {','.join(p) for p, new_ok in _MI if new_ok}
+
+
+def first_c_base_differs(cls):
+  """The first C-implemented class in the MRO is not the one reached through __base__ (the
+  one that fixes the instance layout and owns the allocator)."""
+  heap = 1 << 9
+  base = cls
+  while base.__flags__ & heap:
+    base = base.__base__
+  return next(k for k in cls.__mro__ if not k.__flags__ & heap) is not base
+
 
 VALUES = [0, 1, 2, -7, 13, 'v', 'some text', '', None, True, 2.5, [1, 2], ['a', ['b']],
           {'k': 1}, {'k': [1, {'z': None}]}]
@@ -207,7 +265,7 @@ _val = st.sampled_from(VALUES)
 @st.composite
 def _user_spec(draw):
   group = draw(st.integers(0, 11)) == 0
-  mi = (not group) and draw(st.integers(0, 4)) == 0
+  mi = (not group) and draw(st.integers(0, 3)) == 0
   if group:
     bases = [draw(st.sampled_from(['ExceptionGroup', 'ExceptionGroup', 'BaseExceptionGroup']))]
   elif mi:
@@ -220,6 +278,11 @@ def _user_spec(draw):
   if group:
     new = 'pass'
     init = draw(st.sampled_from([None, None, 'nosuper']))
+  elif any(map(is_group_name, bases)):
+    # a group class among two bases, no __new__ of its own: the constructor takes (message, excs)
+    n, new, init = 0, None, None
+  elif mi and ','.join(bases) not in MI_NEW_OK:
+    new = None      # super().__new__ would be refused by CPython ("is not safe")
   kwonly = init is not None and draw(st.integers(0, 3)) == 0
   names = draw(st.lists(st.sampled_from(ATTR_NAMES), max_size=3, unique=True))
   attrs = [[a, draw(_val)] for a in names]
@@ -322,7 +385,13 @@ def render_user(spec):
   if len(body) == 1:
     body.append('  pass')
   leaf = 'KeyboardInterrupt()' if spec['bases'] == ['BaseExceptionGroup'] else "KeyError('k')"
-  cargs = (["'gm'", f'[ValueError(1), {leaf}]'] if group else []) + [repr(v) for v in spec['argv']]
+  if group:
+    cargs = ["'gm'", f'[ValueError(1), {leaf}]']
+  elif any(map(is_group_name, spec['bases'])):
+    cargs = list(GROUP_LEAD)
+  else:
+    cargs = []
+  cargs += [repr(v) for v in spec['argv']]
   if spec['kwonly']:
     cargs.append(f'kw={spec["kwv"]!r}')
   ctor = f'UExc({", ".join(cargs)})'
@@ -350,6 +419,7 @@ def _chain(draw):
       'inter': draw(st.sampled_from(['fn', 'fn', 'cls'])),
       'scope': draw(st.sampled_from(SCOPES)),
       'cause': draw(st.integers(0, 5)) == 0,
+      'twin': draw(st.integers(0, 2)) == 0,
       'origin': 'gen',
   }
 
@@ -387,10 +457,39 @@ def sweep_builtins(tier):
                 'how': 'register' if site == 'method' else 'configurable',
                 'mhow': 'register', 'links': links, 'inter': 'fn', 'scope': scope,
                 'cause': False, 'origin': 'sweep'})
+      # 'twin first': an equally named distinct class crosses a configurable before this one
+      cases.append({'exc': {'builtin': name, 'expr': expr}, 'site': 'fn', 'how': 'configurable',
+                    'mhow': 'register', 'links': [], 'inter': 'fn', 'scope': '', 'cause': False,
+                    'twin': True, 'origin': 'sweep'})
   return cases, True
 
 
-SWEEPS = {'builtin-classes': sweep_builtins}
+def plain_user_spec(bases, argv=(), **kw):
+  spec = {'user': True, 'bases': list(bases), 'group': False, 'n': len(argv), 'kwonly': False,
+          'new': None, 'init': None, 'store': False, 'slots': [], 'attrs': [], 'post': [],
+          'cattrs': [], 'props': ['fields'], 'str': None, 'repr': False, 'argv': list(argv),
+          'kwv': None}
+  spec.update(kw)
+  return spec
+
+
+def sweep_mi_pairs(tier):
+  """class UExc(A, B) for every ordered pair of builtin exception classes CPython accepts."""
+  pairs = mi_pairs(builtin_names()) if tier == 'thorough' else _MI
+  cases = []
+  for pair, _ in pairs:
+    variants = [()] if any(map(is_group_name, pair)) else [(), (2, 'some text')]
+    for argv in variants:
+      shapes = ((1, '', False), (2, 'zsa/zsb', False), (1, '', True))
+      for depth, scope, twin in (shapes if not argv or tier == 'thorough' else shapes[:1]):
+        cases.append({'exc': plain_user_spec(pair, argv), 'site': 'fn', 'how': 'configurable',
+                      'mhow': 'register', 'links': [{'kind': 'call', 'scope': ''}] * (depth - 1),
+                      'inter': 'fn', 'scope': scope, 'cause': False, 'twin': twin,
+                      'origin': 'sweep'})
+  return cases, True
+
+
+SWEEPS = {'builtin-classes': sweep_builtins, 'mi-ordered-pairs': sweep_mi_pairs}
 
 
 def build_chain(case):
@@ -529,6 +628,33 @@ def tb_entries(tb):
   return out
 
 
+TWIN_SRC = '''
+@gin.configurable('zq_twin')
+def pytwin(x=None):
+  raise HOLD['twin']
+'''
+
+
+def make_twin(exc, cls_src, make_src, sample):
+  """An exception of a distinct class with the same __module__/__qualname__ as type(sample)."""
+  cls = type(sample)
+  try:
+    if exc.get('user'):
+      twin_mod = types.ModuleType(PROBE)          # same __name__ => same __module__ of the class
+      exec(compile(cls_src, CLASS_FILE, 'exec'), twin_mod.__dict__)  # pylint: disable=exec-used
+      exec(compile(make_src, CLASS_FILE + ':make', 'exec'), twin_mod.__dict__)  # pylint: disable=exec-used
+      twin = twin_mod._make()  # pylint: disable=protected-access
+    else:
+      twin_cls = type(cls.__name__, (cls,), {'__module__': cls.__module__})
+      twin = twin_cls(*sample.args)
+  except Exception:  # pylint: disable=broad-except
+    return None
+  tc = type(twin)
+  if tc is cls or (tc.__module__, tc.__qualname__) != (cls.__module__, cls.__qualname__):
+    return None
+  return twin
+
+
 # ----------------------------------------------------------------------------- the check
 def check_case(case):
   exc = case['exc']
@@ -548,6 +674,8 @@ def check_case(case):
     except TypeError as ex:
       raise OutOfDomain(f'class cannot be created: {ex}')
     labels.add('kind:user')
+    if case.get('origin') == 'gen':
+      labels.add('user:generated')     # denominator of the user-class floors
   else:
     cls_src, ctor, post = '', exc['expr'], []
     if not hasattr(builtins, exc['builtin']):
@@ -574,7 +702,22 @@ def check_case(case):
 
   def describe():
     return (f'exception: {ctor}\n--- class\n{cls_src}--- chain\n{chain_src}--- bindings\n'
-            f'{bindings}\n--- outer scope {case["scope"]!r}')
+            f'{bindings}\n--- outer scope {case["scope"]!r}; twin first: {bool(twin_cls)}')
+
+  # (2b) 'twin first': an exception of a DISTINCT class with the same __module__ and
+  # __qualname__ crosses a configurable earlier in the process (class factory, reloaded plugin)
+  twin_cls = None
+  if case.get('twin'):
+    twin_e = make_twin(exc, cls_src, make_src, sample)
+    if twin_e is not None:
+      twin_cls = type(twin_e)
+      mod.HOLD['twin'] = twin_e
+      exec(compile(TWIN_SRC, PROBE_FILE + ':twin', 'exec'), mod.__dict__)  # pylint: disable=exec-used
+      try:
+        mod.pytwin()
+      except BaseException:  # pylint: disable=broad-except
+        pass
+      labels.add('twin:first')
 
   # (3) drive -------------------------------------------------------------------------------
   e2 = None
@@ -606,6 +749,14 @@ def check_case(case):
             lambda: f'raised {cls.__name__} {short(e)}; caught {type(e2).__name__} {short(e2)} '
                     f'with mro {type(e2).__mro__}\n{describe()}')
     labels.add('augmented' if e2 is not e else 'same-object')
+    if twin_cls is not None:
+      # a clause that does not catch the original must not catch the caught object either
+      require(not isinstance(e2, twin_cls) and twin_cls not in type(e2).__mro__,
+              'caught-by-unrelated-class',
+              lambda: f'raised {short(e)} of {cls!r} (id {id(cls):#x}); the caught object is an '
+                      f'instance of the unrelated, equally named class {twin_cls!r} (id '
+                      f'{id(twin_cls):#x}) that was raised earlier; mro {type(e2).__mro__}\n'
+                      f'{describe()}')
 
   # public data attributes
   for name in sorted(orig):
@@ -643,9 +794,11 @@ def check_case(case):
   # the same except clauses (last: re-raising touches __traceback__/__context__)
   if isinstance(e, BaseExceptionGroup) and isinstance(e, Exception):
     for leaf_cls in sorted({type(l) for l in leaves(e)}, key=lambda c: c.__name__):
-      want = [l for l in leaves(e) if isinstance(l, leaf_cls)]
+      # reference: what the same clause sees for the original (the group itself may match,
+      # e.g. class UExc(KeyError, ExceptionGroup) under `except* KeyError`)
+      want = star_leaves(e, leaf_cls)
       got = star_leaves(e2, leaf_cls)
-      require(got is not None and len(got) == len(want) and
+      require(want is not None and got is not None and len(got) == len(want) and
               all(a is b for a, b in zip(got, want)), 'except-star',
               lambda: f'except* {leaf_cls.__name__}: leaves {short(got)}, original has '
                       f'{short(want)}\n{describe()}')
@@ -719,7 +872,12 @@ def check_case(case):
       labels.add('user:custom-repr')
     if len(exc['bases']) > 1:
       labels.add('user:mi')
+      if first_c_base_differs(cls):
+        labels.add('user:mi-layout-base-not-first')
     if exc['group']:
       labels.add('user:group-subclass')
+  if case.get('origin') == 'sweep':
+    # keep the user-class floors honest: they count generated classes only
+    labels = {l.replace('user:', 'mi-sweep:', 1) if l.startswith('user:') else l for l in labels}
   sys.modules.pop(PROBE, None)
   return ok(labels, nontrivial)
